@@ -18,7 +18,7 @@ func init() {
 			"(B3) the worker emits the offset of the pair it received next to the objects decoded from that same pair's blob; " +
 			"(B4) evaluated for the three outcomes of the consumer's receive (normal block / queue closed / EOF pair), with every branch that is not a test of the receive's ok flag or of pair.err==io.EOF taken both ways: a normal block always passes `previous = current` then `current = pair.offset` and becomes the current block before the next receive or return - nothing but the closed/EOF exit may bypass the shift -, and on the closed/EOF outcomes the offsets do not move; " +
 			"(B5) FullyScannedBytes reports the current, PreviousFullyScannedBytes the previous offset; " +
-			"(B6) a first block that is not a header is sent to the workers before the loop, depending only on that type test, and the first block is decoded as a header only under the test that it is one. " +
+			"(B6) a first block that is not a header is sent to the workers before the loop, depending only on that type test, and the first block is decoded as a header only under the test that it is one; the type test may be made where the send is, at a call on the way to it (what the caller tested holds in the helper), or be carried by a parameter: a boolean, or a blob pointer that is assigned only under the not-a-header test and is nil otherwise (then `p != nil` stands for the test); guards whose other branch leaves the function for good (early error returns) are not counted. " +
 			"NOT decided: the arithmetic value of offsets for concrete files; that a scan started at such an offset decodes the same objects (C01).",
 		Assumptions: []string{"go/types, go/cfg (x/tools v0.29.0)", "io.ReadFull reads exactly len(buf) bytes on success"},
 		LevelText:   "Structural necessary conditions for 'the reported offset is the start of the block holding the last returned object': provenance of the counter increment, capture-before-read, and unmodified transport of the offset through worker, serializer and consumer, decided on every path of the functions involved.",
@@ -47,6 +47,8 @@ func init() {
 			{Name: "next-skips-empty-block-before-shift", File: "osmpbf/decode.go", Find: "\t\tdec.pOffset = dec.cOffset\n\t\tdec.cOffset = cd.Offset\n", Replace: "\t\tif len(cd.Objects) == 0 && cd.Err == nil {\n\t\t\tcontinue\n\t\t}\n\n\t\tdec.pOffset = dec.cOffset\n\t\tdec.cOffset = cd.Offset\n", ExpectRule: "B4", ExpectConstruct: "shift-only-on-new-block"},
 			{Name: "next-shift-only-current", File: "osmpbf/decode.go", Find: "\t\tdec.pOffset = dec.cOffset\n\t\tdec.cOffset = cd.Offset\n", Replace: "\t\tif cd.Offset > dec.cOffset {\n\t\t\tdec.pOffset = dec.cOffset\n\t\t}\n\t\tdec.cOffset = cd.Offset\n", ExpectRule: "B4", ExpectConstruct: "shift"},
 			{Name: "loop-sends-without-read", File: "osmpbf/decode.go", Find: "\t\t\tblobHeader, blob, err = dec.readFileBlock(sizeBuf, headerBuf, blobBuf)\n\t\t\tif err == nil && blobHeader.GetType() != osmDataType {", Replace: "\t\t\tif offset > 0 || blob == nil {\n\t\t\t\tblobHeader, blob, err = dec.readFileBlock(sizeBuf, headerBuf, blobBuf)\n\t\t\t}\n\t\t\tif err == nil && blobHeader.GetType() != osmDataType {", ExpectRule: "B2", ExpectConstruct: "capture"},
+			{Name: "method-reader-first-passed-for-header-streams", File: "osmpbf/decode.go", Find: "\n\t// start reading OSMData\n\tgo func() {\n\t\tdefer dec.wg.Done()\n\t\tdefer func() {\n\t\t\tfor _, input := range dec.inputs {\n\t\t\t\tclose(input)\n\t\t\t}\n\t\t}()\n\n\t\tvar (\n\t\t\ti   int\n\t\t\terr error\n\t\t)\n\n\t\t// On restart the first block may not be a header and will need to be\n\t\t// added to the first input.\n\t\tif blobHeader.GetType() != osmHeaderType {\n\t\t\tdec.inputs[0] <- iPair{Offset: 0, Blob: blob, Err: err}\n\n\t\t\ti = (i + 1) % n\n\t\t}\n\n\t\tfor dec.ctx.Err() == nil && err == nil {\n\t\t\tinput := dec.inputs[i]\n\t\t\ti = (i + 1) % n\n\n\t\t\toffset := dec.bytesRead\n\t\t\tblobHeader, blob, err = dec.readFileBlock(sizeBuf, headerBuf, blobBuf)\n\t\t\tif err == nil && blobHeader.GetType() != osmDataType {\n\t\t\t\terr = fmt.Errorf(\"unexpected fileblock of type %s\", blobHeader.GetType())\n\t\t\t}\n\n\t\t\tpair := iPair{Offset: offset, Blob: blob}\n\t\t\tif err != nil {\n\t\t\t\tpair = iPair{Err: err}\n\t\t\t}\n\n\t\t\tselect {\n\t\t\tcase input <- pair:\n\t\t\tcase <-dec.ctx.Done():\n\t\t\t}\n\t\t}\n\t}()\n\n\tgo func() {\n\t\tdefer dec.wg.Done()\n\t\tdefer func() {\n\t\t\tclose(dec.serializer)\n\t\t\tdec.cancel()\n\t\t}()\n\n\t\tfor i := 0; ; i = (i + 1) % n {\n\t\t\toutput := dec.outputs[i]\n\n\t\t\tvar p oPair\n\t\t\tselect {\n\t\t\tcase p = <-output:\n\t\t\tcase <-dec.ctx.Done():\n\t\t\t\treturn\n\t\t\t}\n\n\t\t\tselect {\n\t\t\tcase dec.serializer <- p:\n\t\t\tcase <-dec.ctx.Done():\n\t\t\t\treturn\n\t\t\t}\n\n\t\t\tif p.Err != nil {\n\t\t\t\treturn\n\t\t\t}\n\t\t}\n\t}()\n\n\treturn nil\n}", Replace: "\n\t// the first block is left over for the reader when it is not the header\n\tfirst := blob\n\n\t// start reading OSMData\n\tgo dec.readBlocks(n, first, sizeBuf, headerBuf, blobBuf)\n\n\tgo func() {\n\t\tdefer dec.wg.Done()\n\t\tdefer func() {\n\t\t\tclose(dec.serializer)\n\t\t\tdec.cancel()\n\t\t}()\n\n\t\tfor i := 0; ; i = (i + 1) % n {\n\t\t\toutput := dec.outputs[i]\n\n\t\t\tvar p oPair\n\t\t\tselect {\n\t\t\tcase p = <-output:\n\t\t\tcase <-dec.ctx.Done():\n\t\t\t\treturn\n\t\t\t}\n\n\t\t\tselect {\n\t\t\tcase dec.serializer <- p:\n\t\t\tcase <-dec.ctx.Done():\n\t\t\t\treturn\n\t\t\t}\n\n\t\t\tif p.Err != nil {\n\t\t\t\treturn\n\t\t\t}\n\t\t}\n\t}()\n\n\treturn nil\n}\n\nfunc (dec *decoder) readBlocks(n int, first *osmpbf.Blob, sizeBuf, headerBuf, blobBuf []byte) {\n\tvar blobHeader *osmpbf.BlobHeader\n\tvar blob *osmpbf.Blob\n\tdefer dec.wg.Done()\n\tdefer func() {\n\t\tfor _, input := range dec.inputs {\n\t\t\tclose(input)\n\t\t}\n\t}()\n\n\tvar (\n\t\ti   int\n\t\terr error\n\t)\n\n\t// On restart the first block may not be a header and will need to be\n\t// added to the first input.\n\tif first != nil {\n\t\tdec.inputs[0] <- iPair{Offset: 0, Blob: first}\n\n\t\ti = (i + 1) % n\n\t}\n\n\tfor dec.ctx.Err() == nil && err == nil {\n\t\tinput := dec.inputs[i]\n\t\ti = (i + 1) % n\n\n\t\toffset := dec.bytesRead\n\t\tblobHeader, blob, err = dec.readFileBlock(sizeBuf, headerBuf, blobBuf)\n\t\tif err == nil && blobHeader.GetType() != osmDataType {\n\t\t\terr = fmt.Errorf(\"unexpected fileblock of type %s\", blobHeader.GetType())\n\t\t}\n\n\t\tpair := iPair{Offset: offset, Blob: blob}\n\t\tif err != nil {\n\t\t\tpair = iPair{Err: err}\n\t\t}\n\n\t\tselect {\n\t\tcase input <- pair:\n\t\tcase <-dec.ctx.Done():\n\t\t}\n\t}\n}", ExpectRule: "B6", ExpectConstruct: "dispatch"},
+			{Name: "method-reader-first-passed-only-for-header-streams", File: "osmpbf/decode.go", Find: "\n\t// start reading OSMData\n\tgo func() {\n\t\tdefer dec.wg.Done()\n\t\tdefer func() {\n\t\t\tfor _, input := range dec.inputs {\n\t\t\t\tclose(input)\n\t\t\t}\n\t\t}()\n\n\t\tvar (\n\t\t\ti   int\n\t\t\terr error\n\t\t)\n\n\t\t// On restart the first block may not be a header and will need to be\n\t\t// added to the first input.\n\t\tif blobHeader.GetType() != osmHeaderType {\n\t\t\tdec.inputs[0] <- iPair{Offset: 0, Blob: blob, Err: err}\n\n\t\t\ti = (i + 1) % n\n\t\t}\n\n\t\tfor dec.ctx.Err() == nil && err == nil {\n\t\t\tinput := dec.inputs[i]\n\t\t\ti = (i + 1) % n\n\n\t\t\toffset := dec.bytesRead\n\t\t\tblobHeader, blob, err = dec.readFileBlock(sizeBuf, headerBuf, blobBuf)\n\t\t\tif err == nil && blobHeader.GetType() != osmDataType {\n\t\t\t\terr = fmt.Errorf(\"unexpected fileblock of type %s\", blobHeader.GetType())\n\t\t\t}\n\n\t\t\tpair := iPair{Offset: offset, Blob: blob}\n\t\t\tif err != nil {\n\t\t\t\tpair = iPair{Err: err}\n\t\t\t}\n\n\t\t\tselect {\n\t\t\tcase input <- pair:\n\t\t\tcase <-dec.ctx.Done():\n\t\t\t}\n\t\t}\n\t}()\n\n\tgo func() {\n\t\tdefer dec.wg.Done()\n\t\tdefer func() {\n\t\t\tclose(dec.serializer)\n\t\t\tdec.cancel()\n\t\t}()\n\n\t\tfor i := 0; ; i = (i + 1) % n {\n\t\t\toutput := dec.outputs[i]\n\n\t\t\tvar p oPair\n\t\t\tselect {\n\t\t\tcase p = <-output:\n\t\t\tcase <-dec.ctx.Done():\n\t\t\t\treturn\n\t\t\t}\n\n\t\t\tselect {\n\t\t\tcase dec.serializer <- p:\n\t\t\tcase <-dec.ctx.Done():\n\t\t\t\treturn\n\t\t\t}\n\n\t\t\tif p.Err != nil {\n\t\t\t\treturn\n\t\t\t}\n\t\t}\n\t}()\n\n\treturn nil\n}", Replace: "\n\t// the first block is left over for the reader when it is not the header\n\tvar first *osmpbf.Blob\n\tif blobHeader.GetType() == osmHeaderType {\n\t\tfirst = blob\n\t}\n\n\t// start reading OSMData\n\tgo dec.readBlocks(n, first, sizeBuf, headerBuf, blobBuf)\n\n\tgo func() {\n\t\tdefer dec.wg.Done()\n\t\tdefer func() {\n\t\t\tclose(dec.serializer)\n\t\t\tdec.cancel()\n\t\t}()\n\n\t\tfor i := 0; ; i = (i + 1) % n {\n\t\t\toutput := dec.outputs[i]\n\n\t\t\tvar p oPair\n\t\t\tselect {\n\t\t\tcase p = <-output:\n\t\t\tcase <-dec.ctx.Done():\n\t\t\t\treturn\n\t\t\t}\n\n\t\t\tselect {\n\t\t\tcase dec.serializer <- p:\n\t\t\tcase <-dec.ctx.Done():\n\t\t\t\treturn\n\t\t\t}\n\n\t\t\tif p.Err != nil {\n\t\t\t\treturn\n\t\t\t}\n\t\t}\n\t}()\n\n\treturn nil\n}\n\nfunc (dec *decoder) readBlocks(n int, first *osmpbf.Blob, sizeBuf, headerBuf, blobBuf []byte) {\n\tvar blobHeader *osmpbf.BlobHeader\n\tvar blob *osmpbf.Blob\n\tdefer dec.wg.Done()\n\tdefer func() {\n\t\tfor _, input := range dec.inputs {\n\t\t\tclose(input)\n\t\t}\n\t}()\n\n\tvar (\n\t\ti   int\n\t\terr error\n\t)\n\n\t// On restart the first block may not be a header and will need to be\n\t// added to the first input.\n\tif first != nil {\n\t\tdec.inputs[0] <- iPair{Offset: 0, Blob: first}\n\n\t\ti = (i + 1) % n\n\t}\n\n\tfor dec.ctx.Err() == nil && err == nil {\n\t\tinput := dec.inputs[i]\n\t\ti = (i + 1) % n\n\n\t\toffset := dec.bytesRead\n\t\tblobHeader, blob, err = dec.readFileBlock(sizeBuf, headerBuf, blobBuf)\n\t\tif err == nil && blobHeader.GetType() != osmDataType {\n\t\t\terr = fmt.Errorf(\"unexpected fileblock of type %s\", blobHeader.GetType())\n\t\t}\n\n\t\tpair := iPair{Offset: offset, Blob: blob}\n\t\tif err != nil {\n\t\t\tpair = iPair{Err: err}\n\t\t}\n\n\t\tselect {\n\t\tcase input <- pair:\n\t\tcase <-dec.ctx.Done():\n\t\t}\n\t}\n}", ExpectRule: "B6", ExpectConstruct: "dispatch"},
 			{Name: "accessors-swapped", File: "osmpbf/scanner.go", Find: "func (s *Scanner) FullyScannedBytes() int64 {\n\treturn atomic.LoadInt64(&s.decoder.cOffset)", Replace: "func (s *Scanner) FullyScannedBytes() int64 {\n\treturn atomic.LoadInt64(&s.decoder.pOffset)", ExpectRule: "B5", ExpectConstruct: "FullyScannedBytes"},
 			{Name: "accessor-returns-bytesRead", File: "osmpbf/scanner.go", Find: "func (s *Scanner) FullyScannedBytes() int64 {\n\treturn atomic.LoadInt64(&s.decoder.cOffset)", Replace: "func (s *Scanner) FullyScannedBytes() int64 {\n\treturn atomic.LoadInt64(&s.decoder.bytesRead)", ExpectRule: "B5", ExpectConstruct: "FullyScannedBytes"},
 			{Name: "restart-block-dropped", File: "osmpbf/decode.go", Find: "\t\t\tdec.inputs[0] <- iPair{Offset: 0, Blob: blob, Err: err}\n\n\t\t\ti = (i + 1) % n\n", Replace: "\t\t\t_ = blob\n", ExpectRule: "B6", ExpectConstruct: "dispatch"},
